@@ -187,6 +187,11 @@ type Cron struct {
 
 	// The approximate maximum number pending jobs.
 	Limit int
+
+	// running holds the recurring jobs whose Fn is executing now.
+	// Such a job is not on the Timeline (it gets back there when
+	// Fn returns), so Rem and Add need another way to find it.
+	running map[string]*CronJob
 }
 
 // NewCron creates a new Cron instanced.
@@ -206,7 +211,8 @@ func NewCron(broadcaster *CronBroadcaster, pause time.Duration, name string, lim
 		time.Now(),
 		pause,
 		name,
-		limit}
+		limit,
+		make(map[string]*CronJob)}
 
 	return c, nil
 }
@@ -354,6 +360,9 @@ LOOP:
 				if ready {
 					// Danger.  ToDo: Be more careful
 					c.Timeline = c.Timeline[1:]
+					if !job.Once() {
+						c.running[job.Id] = job
+					}
 					go func(job *CronJob) {
 						c.run(ctx, job)
 					}(job)
@@ -393,8 +402,15 @@ func (c *Cron) run(ctx *core.Context, job *CronJob) {
 	verifhook.Point("cron.resched.gap")
 	if once {
 	} else {
-		// ToDo: Consider an error here.
-		c.schedule(ctx, job, false)
+		// Put the job back on the Timeline unless it was removed
+		// or replaced while it ran.
+		c.Lock()
+		if c.running[job.Id] == job {
+			delete(c.running, job.Id)
+			// ToDo: Consider an error here.
+			c.scheduleLocked(ctx, job, false)
+		}
+		c.Unlock()
 	}
 }
 
@@ -448,17 +464,22 @@ func (c *Cron) insert(ctx *core.Context, job *CronJob) int {
 }
 
 func (c *Cron) schedule(ctx *core.Context, job *CronJob, checkLimit bool) error {
+	c.Lock()
+	err := c.scheduleLocked(ctx, job, checkLimit)
+	c.Unlock()
+	return err
+}
+
+// scheduleLocked does the work for schedule.  Assumes we have the lock.
+func (c *Cron) scheduleLocked(ctx *core.Context, job *CronJob, checkLimit bool) error {
 	core.Log(core.INFO|CRON, ctx, "Cron.schedule", "job", *job, "name", c.Name)
 
 	if job.Expression != nil {
 		job.Next = job.Expression.Next(time.Now().UTC())
 	}
 
-	c.Lock()
-
 	//remove existing job with the same id
 	if _, err := c.rem(ctx, job.Id); nil != err {
-		c.Unlock()
 		core.Log(core.WARN|CRON, ctx, "Cron.schedule", "error", err)
 		return err
 	}
@@ -476,7 +497,6 @@ func (c *Cron) schedule(ctx *core.Context, job *CronJob, checkLimit bool) error 
 		c.insert(ctx, job)
 	}
 
-	c.Unlock()
 	return err
 }
 
@@ -560,6 +580,12 @@ func (c *Cron) rem(ctx *core.Context, id string) (bool, error) {
 			found = true
 			break
 		}
+	}
+	if _, running := c.running[id]; running {
+		// The job is executing right now.  It won't get back on
+		// the Timeline (see 'run').
+		delete(c.running, id)
+		found = true
 	}
 	if !found {
 		// log.Printf("Cron.Rem %p %s job %s not found", c, c.Name, id)
